@@ -14,3 +14,11 @@ check(
     "Trusted: TLC, Json module, the Driver projection (listener identity -> registration index). Each registration uses a distinct callable; listeners do not register listeners re-entrantly. Query results (get_listeners, has_listeners, get_listener_priority) are A-clauses: a deviation there is reported as DRIFT, not as a violation, because the statement only speaks about dispatch.",
     "DESIGN.md#C12",
 )
+check(
+    "C07",
+    ["Elements", "ElementsTrace"],
+    "TLA+ transcription of the flag/name/default rules (P) and the constructors' step order (A) checked by TLC over every flag word; every case replayed on Option/CommandOption/Argument; random conversions and names decided by ElementsTrace.tla",
+    "Exhaustive over the stated quantifier: all 2^13 option and 2^11 argument flag words (incl. two/three undefined bits) x short-name presence x default kind (55 312 constructions), all 12 441 role x prefix x names up to length 4, and 2 232 conversion cases are enumerated by TLC, which checks accepts-exactly-valid, consistency of the constructed object and that undefined bits are ignored on the model; the real constructors/parse methods reproduce the model's answer on every one. 1 500 / 20 000 random big integers, dyadic float literals (exact rational expected value computed from the text), arbitrary short texts and longer names are decided by TLC on the observed result.",
+    "Trusted: TLC + Bitwise/Json modules, observe_* projections. Float round trip only for dyadic literals below 2^30 (no reals in TLC; CPython float() fidelity is outside clikit). Boolean text form = 'true'/'false'. A regex '$' accepting a trailing newline in names is outside the explored alphabets.",
+    "DESIGN.md#C07",
+)
